@@ -7,6 +7,7 @@
 (* and the report the linter prints is the one Workflow derives from the declarations.  *)
 (*   e.cmd [kind, files, cop, lic]   e.pre / e.post [info : file -> [cop, lic], present,*)
 (*   missing, unused, nocop, nolic, glob]   e.exit   e.crash                            *)
+(*   e.doc (for spdx): File sections of the document, file -> [cop, lic]                *)
 (* (info is what the linter SEES: own declarations aggregated with dep5 / REUSE.toml)   *)
 EXTENDS Workflow, IOUtils, TLCExt
 Tr == ndJsonDeserialize(IOEnv.TRACE_FILE)
@@ -46,7 +47,10 @@ Clauses(e) ==
               ELSE IF c.kind = "annotate" /\ p2 # p THEN "C15.annotate-changed-LICENSES"
               ELSE IF dl /\ i2 # i THEN "C15.download-changed-declarations"
               ELSE ""
-       c18 == IF c.kind = "spdx" /\ e.exit # 0 THEN "C18.spdx-failed-on-a-readable-project" ELSE ""
+       c18 == IF c.kind = "spdx" /\ e.exit # 0 THEN "C18.spdx-failed-on-a-readable-project"
+              ELSE IF e.hasDoc /\ [f \in DOMAIN e.doc |-> [cop |-> e.doc[f].cop, lic |-> SeqSet(e.doc[f].lic)]] # i
+                   THEN "C18.file-sections-are-not-what-lint-attributes"     \* one section per covered file, its licences and whether it names a holder
+              ELSE ""
        c09 == IF c.kind = "annotate" /\ same /\ Lost(i, i2) THEN "C09.previously-declared-information-dropped" ELSE ""
        c07 == IF c.kind = "annotate" /\ same /\ (e.exit # 0 \/ i2 # ApplyInfo(c, i)) THEN "C07.read-back-differs-from-request" ELSE ""
        c19 == IF ~dl THEN ""
